@@ -351,9 +351,7 @@ def scenarios(ctx):
        [{"op": "new"}, f("a.txt", 2), {"op": "commit"}, f("big.bin", "big5p1"), f("edge.bin", "big5"), f("z.txt", 3), {"op": "commit"}], "obj-0")
     # the inputs of both repaired classes at once: zero-padded version directories (v00001: the walk of the staged
     # object used to list the root inventory early), sha256 sidecar, 1.0 object upgraded WITHOUT further staged changes
-    # (the content directory "inventory.json.c" makes the rank-2 rule of the upload sort - name begins with
-    # "inventory.json." - apply to ordinary files of the version directory as well)
-    sc({"layout": "0003", "pad": 5, "alg": "sha256", "obj_spec": "1.0", "cdir": "inventory.json.c"}, "q", 1000,
+    sc({"layout": "0003", "pad": 5, "alg": "sha256", "obj_spec": "1.0", "cdir": "c"}, "q", 1000,
        [{"op": "new"}, f("a.txt", 2), f("b.txt", 3, "inventory.json.d/b.txt"), {"op": "commit"},
         f("c.txt", 4), {"op": "commit"}, {"op": "upgrade_object", "spec": "1.1"}], "obj-0")
     if not ctx.quick():
@@ -414,6 +412,9 @@ def run(ctx):
     modes = ("500", "drop")
     with concurrent.futures.ThreadPoolExecutor(max_workers=min(8, common.NPROC)) as ex:
         results = list(ex.map(lambda a: run_scenario(ctx, a[0], a[1], modes), enumerate(scens)))
+    for n, rs in enumerate(results):
+        if not rs:
+            raise common.BuildError("scenario %d of checks/c16.py committed nothing (generator out of date?)" % n)
     recs = [x for rs in results for x in rs]
 
     terms, owners = [], []
